@@ -49,13 +49,13 @@ Qed.
 Lemma nth_rev_cons_last {A} (l : list A) x d : nth (length l) (rev (x :: l)) d = x.
 Proof. cbn [rev]. rewrite app_nth2; rewrite rev_length; [|lia]. rewrite Nat.sub_diag. reflexivity. Qed.
 
-Theorem hedge_loop_good c atts ext t0 : forall fuel k tk rs count starts,
+Theorem hedge_loop_good c atts ext t0 : forall fuel k tk rs count starts tie,
   (k <= h_max c)%nat -> length starts = k -> tk = sched c t0 k ->
   (forall i, (i < k)%nat -> nth i (rev starts) 0 = sched c t0 i) ->
   (forall x, In x rs -> (r_idx x < k)%nat) ->
-  good c t0 (hedge_loop fuel c atts ext k tk rs count starts).
+  good c t0 (hedge_loop fuel c atts ext k tk rs count starts tie).
 Proof.
-  induction fuel as [|fuel IH]; intros k tk rs count starts Hk Hlen Htk Hst Hrs; cbn [hedge_loop].
+  induction fuel as [|fuel IH]; intros k tk rs count starts tie Hk Hlen Htk Hst Hrs; cbn [hedge_loop].
   - unfold good. cbn [ho_starts ho_winner ho_cancelled]. rewrite rev_length, Hlen. repeat split; try lia. exact Hst.
   - set (a := nth k atts _).
     set (fin := match ext with Some (tc, _) => _ | None => _ end).
